@@ -12,7 +12,10 @@ Definition base (o : mobj) (n : Z) (a : acell) (c0 : acore) : Prop :=
   c_num c0 = c_num (a_core a) /\ c_iso c0 = c_iso (a_core a) /\
   match o_backup o with
   | None => c_chg c0 = c_chg (a_core a) /\ c_rad c0 = c_rad (a_core a)
-  | Some b => exists a0, zget (bk_atoms b) n = Some a0 /\ c_chg c0 = c_chg (a_core a0) /\ c_rad c0 = c_rad (a_core a0)
+  | Some b => match zget (bk_atoms b) n with
+              | Some a0 => c_chg c0 = c_chg (a_core a0) /\ c_rad c0 = c_rad (a_core a0)
+              | None => True            (* not in the backup under this number: recalculated at commit *)
+              end
   end.
 Definition hydC (h : hp) (o : mobj) (n : Z) (a : acell) : Prop :=
   exists c0 l, a_hyd a = Some (c0, l) /\ lenvn h o n = Ok l /\ base o n a c0.
@@ -429,6 +432,10 @@ Proof.
   intros H1 H2 H3. unfold txn_diffs. apply in_flat_map. exists (x, a). split; [now apply zget_In|]. cbn [fst snd]. rewrite H2, H3. now left.
 Qed.
 
+Lemma In_txn_diffs_new x o b a : zget (o_atoms o) x = Some a -> zget (bk_atoms b) x = None -> In x (txn_diffs o b).
+Proof.
+  intros H1 H2. unfold txn_diffs. apply in_flat_map. exists (x, a). split; [now apply zget_In|]. cbn [fst snd]. rewrite H2. now left.
+Qed.
 Lemma exit_ok_frop : frop exit_ok.
 Proof.
   intros h o I [H L]. rewrite exit_ok_split. unfold seq at 1. unfold exit_body. unfold seq at 1.
@@ -453,7 +460,9 @@ Proof.
     destruct (o_changed o) as [l|] eqn:Ec; [|left; unfold todo, o2; simpo; rewrite (N1 eq_refl); rewrite A1; eapply zget_In_keys; eauto].
     destruct (H x a Ha) as [Hp|[c0 [l0 [X1 [X2 [Nn [Ni Bs]]]]]]]; [left; apply todo_pend; unfold pend, o2 in *; simpo; now apply P1|].
     destruct (o_backup o) as [b|] eqn:Eb.
-    - destruct Bs as [a0 [Ha0 [Ec0 Er0]]].
+    - destruct (zget (bk_atoms b) x) as [a0|] eqn:Ha0;
+        [|left; apply todo_pend; unfold pend, o2; simpo; apply (Q1 b eq_refl); [discriminate|]; eapply In_txn_diffs_new; eauto].
+      destruct Bs as [Ec0 Er0].
       destruct ((c_chg (a_core a) =? c_chg (a_core a0)) && Bool.eqb (c_rad (a_core a)) (c_rad (a_core a0))) eqn:Ed.
       + right. apply andb_true_iff in Ed. destruct Ed as [Ed1 Ed2]. apply Z.eqb_eq in Ed1. apply Bool.eqb_prop in Ed2.
         exists l0. split; [unfold lenvn, row, o2; simpo; rewrite A1, D1; exact X2|]. rewrite X1. f_equal. f_equal.
